@@ -34,7 +34,7 @@ func (failingTransport) RoundTrip(*http.Request) (*http.Response, error) {
 var noNetClient = &http.Client{Transport: failingTransport{}}
 
 func chainScenarios(tier mc.Tier, p purposeKind, id string) []mc.Scenario {
-	maxN := 3
+	maxN := 4
 	if tier == mc.Thorough {
 		maxN = 5
 	}
@@ -150,6 +150,9 @@ func chainBody(c *mc.Ctx, n int, leafKey string, p purposeKind, id string) {
 		}
 		_, err = revocsp.CheckStatus(revocsp.Options{CertChain: chain, CertChainPurpose: purpose.CodeSigning, HTTPClient: noNetClient})
 		expect("ocsp.CheckStatus(CodeSigning)", wantNoTime, isInvalidChain(err))
+		// the timestamping validator on the very same certificates: nothing learnt about a chain under one rule set may leak into the other
+		wantTS, _ := refChainOK(d, purposeTS, false)
+		expect("ValidateTimestampingCertChain(on a code-signing chain)", wantTS, nx509.ValidateTimestampingCertChain(chain))
 		// Sign routes the chain through this validation at the signing time
 		if pki.Supported(kindOf(d.keys[0])) {
 			st := pki.Now
@@ -241,7 +244,7 @@ func init() {
 	_ = x509.Certificate{}
 	register(&mc.Check{
 		ID: "C03", Title: "Code-signing chain validation accepts exactly the conforming ordered chains", DesignRef: "DESIGN.md §4 C03",
-		Rule: "Chains of length 1..3 (quick) / 1..5 (thorough) forged from a description; every single violation at every position, every benign variation, " +
+		Rule: "Chains of length 1..4 (quick) / 1..5 (thorough) forged from a description; every single violation at every position, every benign variation, " +
 			"every (benign, violation) pair (quick: at length 3; thorough: all lengths) and, thorough, every pair of violations at different positions; the verdict of " +
 			"ValidateCodeSigningCertChain, of the revocation validators configured for code signing and of Sign() in both formats is compared with a reference evaluated on the description.",
 		Assumptions: []string{"don't-care zones not generated: keyUsage contentCommitment on a leaf, EKU on CA certificates, unknown critical extensions, two certificates sharing one key",
